@@ -173,9 +173,10 @@ def check_fresh_graph(rep: Rep, w: Walker, first_seq: int, pre: str = "") -> Non
         from .rules_premise import raise_conditions
         from .ir import facts, mk_not
         rc = raise_conditions(w)
+        from .rules_premise import validation_guard
         exits = [x for x in w.events if x.kind == "raise"]
         uncond = all(mk_not(f) in rc for f in facts(e.guards)) or all(
-            any((g, not pol) in x.guards for x in exits) for g, pol in e.guards)
+            validation_guard(exits, g, pol) for g, pol in e.guards)
         okI = "I_train" not in w.entry.params or args.get("I") in (("param", "I_train"),)
         ok = v[0] == "new" and v[1] in GRAPH_CLASSES and args.get("X") == ("param", "X_train") \
             and args.get("Y") in (("param", "Y_train"), None) and okI and e.seq < first_seq and uncond and not e.loops
